@@ -26,6 +26,11 @@ values are shared, and describe them as DATA in lean/PyrollModel/Gen/C12.lean:
   entries, sets the incoming profile's public non-root-hook entries and fills in missing root-hook entries =
   `.handOver` (compared as an AST, up to the names of local variables); the model's `ensureOut` takes the value.
 
+* the construction of a roll pass: the FORM in which `SymmetricRollPass.__init__` binds `self.roll` (`Heap.RollStore`:
+  `self.roll = self.Roll(<the parameter>, self)`, unconditionally = `.copy`; `self.roll = <the parameter>` = `.adopt`;
+  anything else - a condition on what is handed in, a second binding - is a Gap), every place of the package that binds
+  an attribute `roll`, and every statement of a constructor in roll_pass/ that uses its parameter `roll`.
+
 Only whitelisted shapes are translated; anything else is a `Gap` (broken tie).
 """
 import ast
@@ -797,6 +802,132 @@ def deepcopy_forms(repo):
 
 
 # -------------------------------------------------------------------------------------------------
+# the construction of a roll pass: what becomes of the roll object handed in
+# -------------------------------------------------------------------------------------------------
+def _binds_attr(node, attr):
+    """(receiver text, bound expression text) when `node` binds the attribute `attr` of some object: assignment
+    (plain / annotated / augmented, also as part of a tuple target), `setattr(x, 'attr', v)`, `x.__dict__['attr'] = v`,
+    `del x.attr`, `delattr(x, 'attr')`; else None"""
+    def hit(t):
+        if isinstance(t, ast.Attribute) and t.attr == attr:
+            return _src(t.value)
+        if isinstance(t, ast.Subscript) and isinstance(t.slice, ast.Constant) and t.slice.value == attr \
+                and _src(t.value).endswith("__dict__"):
+            return _src(t.value)
+        return None
+    targets, value = [], None
+    if isinstance(node, ast.Assign):
+        targets, value = list(node.targets), _src(node.value)
+    elif isinstance(node, ast.AnnAssign) and node.value is not None:
+        targets, value = [node.target], _src(node.value)
+    elif isinstance(node, ast.AugAssign):
+        targets, value = [node.target], "aug " + _src(node.value)
+    elif isinstance(node, ast.Delete):
+        targets, value = list(node.targets), "del"
+    elif isinstance(node, ast.Call) and isinstance(node.func, ast.Name) and node.func.id in ("setattr", "delattr") \
+            and len(node.args) >= 2 and isinstance(node.args[1], ast.Constant) and node.args[1].value == attr:
+        return [(_src(node.args[0]), _src(node.args[2]) if len(node.args) > 2 else "del")]
+    flat = []
+    for t in targets:
+        flat.extend(t.elts if isinstance(t, (ast.Tuple, ast.List)) else [t])
+    return [(hit(t), value) for t in flat if hit(t) is not None]
+
+
+def roll_store_form(repo):
+    """`.copy` / `.adopt` (see the module docstring); any other shape of `SymmetricRollPass.__init__` is a Gap"""
+    cls = _find_class(_parse(repo, "roll_pass/symmetric_roll_pass.py"), "SymmetricRollPass")
+    init = _find_func(cls, "__init__")
+    if init is None:
+        raise Gap("SymmetricRollPass.__init__ not found")
+    params = [a.arg for a in init.args.posonlyargs + init.args.args + init.args.kwonlyargs]
+    if len(params) < 2:
+        raise Gap("SymmetricRollPass.__init__: no parameter for the roll")
+    me, roll = params[0], params[1]
+    binds = [(n, b) for n in ast.walk(init) for b in (_binds_attr(n, "roll") or []) if b[0] == me]
+    if len(binds) != 1:
+        raise Gap(f"SymmetricRollPass.__init__: expected exactly one binding of `{me}.roll`, found "
+                  + (" / ".join(f"{r}.roll <- {v}" for _, (r, v) in binds) or "none"))
+    node, _ = binds[0]
+    if node not in init.body or not isinstance(node, (ast.Assign, ast.AnnAssign)):
+        raise Gap(f"SymmetricRollPass.__init__: `{me}.roll` is not bound by one unconditional assignment: "
+                  + _src(node).split("\n")[0][:100])
+    if any(isinstance(n, ast.Name) and n.id == roll and isinstance(n.ctx, (ast.Store, ast.Del)) for n in ast.walk(init)):
+        raise Gap(f"SymmetricRollPass.__init__: the parameter `{roll}` is re-bound")
+    for st in init.body[:init.body.index(node)]:
+        # what runs before: the docstring and `super().__init__(label, **kwargs)` (the roll is not handed on)
+        if isinstance(st, ast.Expr) and isinstance(st.value, ast.Constant):
+            continue
+        if isinstance(st, ast.Expr) and isinstance(st.value, ast.Call) and _src(st.value.func) == "super().__init__" \
+                and not any(isinstance(n, ast.Name) and n.id == roll for n in ast.walk(st)):
+            continue
+        raise Gap(f"SymmetricRollPass.__init__: statement before the binding of `{me}.roll`: " + _src(st)[:80])
+    v = node.value
+    if isinstance(v, ast.Call) and _src(v.func) == f"{me}.Roll" and not v.keywords and len(v.args) == 2 \
+            and all(isinstance(a, ast.Name) for a in v.args) and [a.id for a in v.args] == [roll, me]:
+        return ".copy"
+    if isinstance(v, ast.Name) and v.id == roll:
+        return ".adopt"
+    raise Gap(f"SymmetricRollPass.__init__: `{me}.roll` is bound to an expression of an unknown form: " + _src(v)[:120])
+
+
+def roll_bindings(repo):
+    """every place in pyroll/core where an attribute `roll` of an object is bound: (file:function, receiver, expression)"""
+    base = os.path.join(repo, "pyroll", "core")
+    res = []
+    for root, dirs, files in os.walk(base):
+        dirs.sort()
+        for fn in sorted(files):
+            if not fn.endswith(".py"):
+                continue
+            path = os.path.join(root, fn)
+            rel = os.path.relpath(path, base)
+            with open(path) as f:
+                tree = ast.parse(f.read(), filename=path)
+
+            def visit(node, qual):
+                for ch in ast.iter_child_nodes(node):
+                    q = qual
+                    if isinstance(ch, (ast.ClassDef, ast.FunctionDef, ast.AsyncFunctionDef)):
+                        q = (qual + "." if qual else "") + ch.name
+                    for r, v in (_binds_attr(ch, "roll") or []):
+                        res.append((f"{rel}:{qual}", r, v))
+                    visit(ch, q)
+            visit(tree, "")
+    return res
+
+
+def roll_param_uses(repo):
+    """every statement of a constructor (`__init__` / `__new__`) in pyroll/core/roll_pass/ that uses a parameter named
+    `roll` (where the object handed in goes), and every constructor of a class `…Roll` there: (file:Class.method, statement
+    or `<defined>`)"""
+    base = os.path.join(repo, "pyroll", "core", "roll_pass")
+    res = []
+    for fn in sorted(os.listdir(base)):
+        if not fn.endswith(".py"):
+            continue
+        path = os.path.join(base, fn)
+        with open(path) as f:
+            tree = ast.parse(f.read(), filename=path)
+
+        def visit(node, qual):
+            for ch in ast.iter_child_nodes(node):
+                if isinstance(ch, ast.ClassDef):
+                    visit(ch, (qual + "." if qual else "") + ch.name)
+                elif isinstance(ch, (ast.FunctionDef, ast.AsyncFunctionDef)) and ch.name in ("__init__", "__new__"):
+                    a = ch.args
+                    names = [x.arg for x in a.posonlyargs + a.args + a.kwonlyargs]
+                    where = f"{fn}:{qual}.{ch.name}"
+                    if qual.split(".")[-1].endswith("Roll"):
+                        res.append((where, "<defined>"))
+                    if "roll" in names:
+                        for st in ch.body:
+                            if any(isinstance(n, ast.Name) and n.id == "roll" for n in ast.walk(st)):
+                                res.append((where, _src(st).replace("\n", " ")[:160]))
+        visit(tree, "")
+    return res
+
+
+# -------------------------------------------------------------------------------------------------
 def _s(x):
     return '"' + x.replace("\\", "\\\\").replace('"', '\\"') + '"'
 
@@ -817,6 +948,9 @@ def generate(repo):
     vel_writes, vel_uses, vel_targets = velocity_effects(repo)
     dc_host, dc_list, dc_defs = deepcopy_forms(repo)
     entry = profile_entry_points(repo)
+    roll_store = roll_store_form(repo)
+    roll_binds = roll_bindings(repo)
+    roll_uses = roll_param_uses(repo)
 
     L = []
     L.append("/- GENERATED by driver/translate/c12_effects.py from pyroll/core (unit/unit.py, hooks.py, roll_pass/*.py,")
@@ -890,6 +1024,19 @@ def generate(repo):
     L.append("")
     L.append("/-- every definition of a method of the copy / pickle protocol in pyroll/core -/")
     L.append("def copyProtocolDefs : List String :=\n  [" + ",\n   ".join(_s(d) for d in dc_defs) + "]")
+    L.append("")
+    L.append("/-- `SymmetricRollPass.__init__`: the form in which `self.roll` is bound (`.copy` = `self.roll = self.Roll(roll, self)`,")
+    L.append("    unconditionally, whatever roll object is handed in; `.adopt` = `self.roll = roll`) -/")
+    L.append(f"def rollStore : RollStore := {roll_store}")
+    L.append("")
+    L.append("/-- every binding of an attribute `roll` in pyroll/core: (file:function, receiver, bound expression) -/")
+    L.append("def rollBindings : List (String × String × String) :=\n  ["
+             + ",\n   ".join(f"({_s(a)}, {_s(b)}, {_s(c)})" for a, b, c in roll_binds) + "]")
+    L.append("")
+    L.append("/-- every statement of a constructor in pyroll/core/roll_pass/ that uses its parameter `roll`, and every")
+    L.append("    constructor defined by a class `…Roll` there: (file:Class.method, statement) -/")
+    L.append("def rollParamUses : List (String × String) :=\n  ["
+             + ",\n   ".join(f"({_s(a)}, {_s(b)})" for a, b in roll_uses) + "]")
     L.append("")
     L.append("end Gen.C12")
     return "\n".join(L) + "\n"
